@@ -30,7 +30,7 @@ ASSUMPTIONS = [
 REQUIRED_MONITORS = ['runs:forked', 'runs:real_crosscheck', 'log:bodies_observed', 'listing:checked', 'verbose:checked',
                      'failfast:checked']
 REQUIRED_CLASSES = ['mode=all', 'mode=tagged', 'mode=list', 'spelling=-1', 'spelling=--tagged', 'spelling=-0',
-                    'spelling=--istagged', 'cluster=1', 'classes_named=1', 'write_flag=1', 'inheritance=1']
+                    'spelling=--istagged', 'spelling=both-glued', 'spelling=both-separate', 'spelling=both-long', 'cluster=1', 'classes_named=1', 'write_flag=1', 'inheritance=1']
 
 HEADER = '''import os, sys, unittest
 from tdda.referencetest import ReferenceTestCase, tag
@@ -87,8 +87,14 @@ def gen_module(rng):
 
 
 def gen_argv(rng, classes, i):
-    modes = [('all', None), ('tagged', '-1'), ('tagged', '--tagged'), ('list', '-0'), ('list', '--istagged')]
-    mode, flag = modes[i % 5]
+    modes = [('all', None), ('tagged', '-1'), ('tagged', '--tagged'), ('list', '-0'), ('list', '--istagged'),
+             ('list', 'both-glued'), ('list', 'both-separate'), ('list', 'both-long')]
+    mode, flag = modes[i % 8]
+    both = None
+    if flag and flag.startswith('both'):
+        # tagged and list-tagged together: listing wins (no test may run)
+        both = flag
+        flag = None
     uflags = [f for f in ('-v', '-q', '-f', '-b') if rng.random() < 0.3]
     if '-v' in uflags and '-q' in uflags:
         uflags.remove('-q')
@@ -107,6 +113,14 @@ def gen_argv(rng, classes, i):
             cluster = True
         else:
             dash.insert(rng.randrange(len(dash) + 1), flag)
+    if both == 'both-glued':
+        letters = ['1', '0'] + ([dash.pop(rng.randrange(len(dash)))[1]] if dash and rng.random() < 0.4 else [])
+        rng.shuffle(letters)
+        args.append('-' + ''.join(letters))
+        cluster = True
+    elif both == 'both-separate':
+        for f in rng.sample(['-1', '-0'], 2):
+            dash.insert(rng.randrange(len(dash) + 1), f)
     if write and write[0] == '-W':
         dash.insert(rng.randrange(len(dash) + 1), '-W')
         write = 'W'
@@ -114,6 +128,8 @@ def gen_argv(rng, classes, i):
     longs = []
     if flag in ('--tagged', '--istagged'):
         longs.append(flag)
+    if both == 'both-long':
+        longs += ['--tagged', '--istagged']
     if write and write != 'W' and write[0] == '--write-all':
         longs.append('--write-all')
     rng.shuffle(longs)
@@ -128,7 +144,7 @@ def gen_argv(rng, classes, i):
             'argv_model': {'mode': mode, 'classes': named, 'failfast': '-f' in uflags or any('f' in a for a in args if re.match(r'^-[01vqfb]+$', a)),
                            'verbose': '-v' in uflags or any('v' in a for a in args if re.match(r'^-[01vqfb]+$', a)),
                            'quiet': '-q' in uflags or any('q' in a for a in args if re.match(r'^-[01vqfb]+$', a))},
-            'spelling': flag, 'cluster': cluster, 'write': bool(write)}
+            'spelling': flag or both, 'cluster': cluster, 'write': bool(write)}
 
 
 def run_case(ctx, case, real=False):
